@@ -862,6 +862,15 @@ class ClientSession:
                             )
                             # encoded=True defers validation of the netloc
                             parsed_redirect_url.port
+                            # yarl quotes the path, the query and the userinfo,
+                            # never the host: it goes to the resolver and into
+                            # the Host header as is
+                            r_host = parsed_redirect_url.raw_host
+                            if r_host and (
+                                " " in r_host
+                                or _TARGET_FORBIDDEN_CTL_RE.search(r_host)
+                            ):
+                                raise ValueError("control character in host")
                         except ValueError as e:
                             if req._body is not None:
                                 await req._body.close()
